@@ -193,6 +193,21 @@ func raiseDuplicateKey(cfg *Config, name string) Error {
 	return raisePathErr(ErrDuplicateKey, cfg.metadata, "", cfg.PathOf(name, "."))
 }
 
+// raiseAt names the setting v as the place err occurred at. A typed error
+// that names a setting already is passed on; one without a path (a cyclic
+// reference reports only the key it met again) keeps its reason and message.
+func raiseAt(err error, v value) Error {
+	reason, message := err, ""
+	if e, ok := err.(Error); ok {
+		if e.Path() != "" {
+			return e
+		}
+		reason, message = e.Reason(), e.Message()
+	}
+	ctx := v.Context()
+	return raisePathErr(reason, v.meta(), message, ctx.path("."))
+}
+
 func raiseCyclicErr(field string) Error {
 	message := fmt.Sprintf("cyclic reference detected for key: '%s'", field)
 
